@@ -17,7 +17,9 @@ LEVEL = "translation_validation"
 ENCODED = ["pyrefact.fixes:*", "pyrefact.performance:*", "pyrefact.symbolic_math:*", "pyrefact.object_oriented:*",
            "pyrefact.abstractions:*", "pyrefact.processing:fix", "pyrefact.processing:_schedule_rewrites",
            "pyrefact.processing:_apply_rewrites", "pyrefact.processing:_do_rewrite", "pyrefact.processing:alter_code"]
-STUBS = ["numpy programs run with the real numpy (wheelhouse, 2.x) on dtype=object arrays whose entries are proxies",
+STUBS = ["pandas programs run against the vendored reference shim shims/pandas.py (pandas is not installed; the shim is part "
+         "of the trusted base of those obligations, in the symbolic run and in the replay alike)",
+         "numpy programs run with the real numpy (wheelhouse, 2.x) on dtype=object arrays whose entries are proxies",
          "unknown functions of a snippet are tape-backed (print their arguments, return TAPE.pop() % 3); unknown "
          "values are inputs in -3..3 / lists of inputs"]
 ASSUMPTIONS = [
@@ -27,8 +29,9 @@ ASSUMPTIONS = [
     "several rules introduce collections./functools. names by design",
     "a (rule, skeleton) pair is non-trivial only if the rule changes the text",
 ]
-OUTSIDE = ["pandas rules and import rules (need a data-frame shim / a package tree on disk: not exercised, listed in "
-           "evidence)", "numpy rules beyond object arrays of Python integers (fixed-width overflow, floats)",
+OUTSIDE = ["import rules (need a package tree on disk: not exercised, listed in evidence)",
+           "pandas semantics beyond the vendored reference shim shims/pandas.py (dtype upcasting of rows, duplicate labels, "
+           "non-scalar keys)", "numpy rules beyond object arrays of Python integers (fixed-width overflow, floats)",
            "programs outside the families"]
 
 
@@ -108,4 +111,4 @@ def evidence_extra(obligations, results):
     return {"programs": sum(1 for r in results if r.get("fired")), "rules_exercised": len(fired),
             "rules_not_exercised": [r for r in rules if r not in fired],
             "fired_per_rule": dict(fired.most_common()),
-            "not_exercised_by_construction": ["performance_pandas.*", "tracing.*", "import rules"]}
+            "not_exercised_by_construction": ["tracing.*", "import rules"]}
